@@ -123,7 +123,7 @@ func c07single(c *mon.Ctx, g *engine, d int, op string, rng *rand.Rand) {
 func runC07(c *mon.Ctx) {
 	env := GetEnv()
 	base := NewPool(c.Rand("pool"), 64)
-	nh := c.Pick(300, 5000)
+	nh := c.Pick(300, 20000)
 	for h := 0; h < nh; h++ {
 		if !c.Mine(h) {
 			continue
